@@ -9,6 +9,7 @@ mod c07;
 mod c12;
 mod c17;
 mod c09;
+mod c10;
 mod c20;
 mod c19;
 mod c06;
@@ -34,6 +35,7 @@ fn main() {
             "C12" => c12::search(seed, &budget, thorough),
             "C17" => c17::search(seed, &budget, thorough),
             "C09" => c09::search(seed, &budget, thorough),
+            "C10" => c10::search(seed, &budget, thorough),
             "C20" => c20::search(seed, &budget, thorough),
             "C19" => c19::search(seed, &budget, thorough),
             "C06" => c06::search(seed, &budget, thorough),
@@ -56,6 +58,7 @@ fn main() {
             "C12" => c12::run(&input),
             "C17" => c17::run(&input),
             "C09" => c09::run(&input),
+            "C10" => c10::run(&input),
             "C20" => c20::run(&input),
             "C19" => c19::run(&input),
             "C06" => c06::run(&input),
